@@ -45,3 +45,16 @@ pub fn vf_pad(a: Vec<u8>, byte: u8, n: usize) -> (r: Vec<u8>)
 { unimplemented!() }
 pub assume_specification[ u16::max_value ]() -> (r: u16) ensures r == 0xffffu16;
 // ===== end =====
+// ===== heads of the query RPCs =====
+pub struct BlockFilterRpcImpl { pub x: u8 }
+pub struct Uint32 { pub v: u32 }                    // ckb_jsonrpc_types::Uint32
+impl Uint32 { pub fn value(&self) -> (r: u32) ensures r == self.v { self.v } }
+pub struct FilterOptions { pub x: u8 }
+impl Error {
+    #[verifier::external_body]
+    pub fn invalid_params_str(msg: &str) -> (r: Error) { unimplemented!() }
+}
+// build_filter_options (service.rs): conversion of the json filter ranges; not under contract
+#[verifier::external_body]
+pub fn build_filter_options(search_key: SearchKey) -> (r: Result<(Option<Vec<u8>>, Option<[usize; 2]>, Option<[usize; 2]>, Option<[u64; 2]>, Option<[u64; 2]>)>) { unimplemented!() }
+// ===== end =====
